@@ -329,6 +329,9 @@ func emitCase(g *lp.Gen, client bool, maxBody, limit int, stream []byte, mode in
 				n = len(rest)
 			}
 		}
+		if g.Chance(1, 60) {
+			g.P("D -") // an empty read between two reads (also with a ReadLimit set and the cache beyond it)
+		}
 		g.P("D %s", lp.Hex(rest[:n]))
 		rest = rest[n:]
 	}
